@@ -144,3 +144,10 @@ def _v51(repo, mod):
     fn = repo.func("pynguin.testcase.execution", "TestCaseExecutor._build_namespace")
     r = find_stmt(fn, lambda s: isinstance(s, ast.Return))
     return replace_node(mod, r, "self._namespace = namespace\n        return self._namespace")
+
+
+@variant("C32", "mutation-executor-with-default-bounds", "pynguin.assertion.assertiongenerator", "C32.bounds", "auxiliary executor built without the configured bounds (the repaired defect)")
+def _v60(repo, mod):
+    fn = repo.func("pynguin.assertion.assertiongenerator", "create_filtering_executor")
+    c = find_node(fn, lambda n: isinstance(n, ast.Call) and norm(n.func).endswith("SubprocessTestCaseExecutor"))
+    return replace_node(mod, c, "ex.SubprocessTestCaseExecutor(plain_executor.subject_properties.sharing_registries())")
